@@ -47,12 +47,12 @@ func H_C05_compareData() {
 	reach("compared")
 }
 
-var alphaShrink = []uint8{opReturn, opDrawBool, opErrorf, opFatalA, opFatalB, opFatalIfBit, opSkip, opPanicStr}
-var alphaShrinkDeep = []uint8{opReturn, opDrawBool, opDrawSmall, opErrorf, opFatalA, opFatalB, opFatalIfBit, opSkip, opPanicStr}
+var alphaShrink = []uint8{opReturn, opDrawBool, opErrorf, opFatalA, opFatalB, opFatalIfBit, opSkip, opPanicStr, opNilDeref, opNilDerefB, opDeepA, opDeepB, opIfBit}
+var alphaShrinkDeep = []uint8{opReturn, opDrawBool, opDrawSmall, opErrorf, opFatalA, opFatalB, opFatalIfBit, opSkip, opPanicStr, opNilDeref, opNilDerefB, opDeepA, opDeepB, opIfBit}
 
 // H_C05_accept: one step of the real shrinker.accept from any state a run can produce.
 func H_C05_accept() {
-	k := 3
+	k := 4
 	L := 3
 	if thorough() {
 		L = 4
